@@ -108,6 +108,10 @@ def shapes() -> dict[str, tuple[dict, list]]:
                    [("s", "0", "m1"), ("s", "0", "m2")] + [("p", "0", f"q{i}") for i in range(1, 6)])
     # dataset names whose plain concatenation coincides: ("g1", "0") and ("g", "10")
     S["collide"] = ({"g": twelve, "g1": one, "u": one}, [("g", "10", "u"), ("g1", "0", "u")])
+    # ... and names with dots whose "task.output" strings coincide: ("st", "mean.0") and ("st.mean", "0")
+    S["collide_dots"] = ({"st": ["mean.0"], "st.mean": one, "u": one}, [("st", "mean.0", "u"), ("st.mean", "0", "u")])
+    # more computable tasks and idle workers in one round than any per-round limit a controller might have (34 > 32)
+    S["wide34"] = ({f"s{i:02d}": one for i in range(34)}, [])
     S["fanout4"] = ({"s": one, "m1": one, "m2": one, "m3": one, "m4": one}, [("s", "0", "m1"), ("s", "0", "m2"), ("s", "0", "m3"), ("s", "0", "m4")])
     S["multiout3"] = ({"g": ["0", "1", "2"], "u": one, "v": one}, [("g", "0", "u"), ("g", "2", "u"), ("g", "1", "v")])
     S["sixtasks"] = ({"a": one, "b": one, "c": one, "d": one, "p": one, "q": one},
@@ -172,6 +176,10 @@ def quick_instances() -> list[Instance]:
     for shape, ext in [("fanout", [("m1", "0"), ("m2", "0")]), ("fanout4", [("m1", "0"), ("m4", "0")]), ("diamond", [("s", "0"), ("k", "0")])]:
         outs, edges = S[shape]
         I.append(Instance(f"{shape}_3x1_threehosts", outs, edges, cluster(3, 1), ext, trace_only=True))
+    outs, edges = S["collide_dots"]
+    I.append(Instance("collide_dots_1x1_sink", outs, edges, cluster(1, 1), [("u", "0"), ("st", "mean.0")], trace_only=True))
+    outs, edges = S["wide34"]
+    I.append(Instance("wide34_1x34_some", outs, edges, cluster(1, 34), [("s00", "0"), ("s33", "0")], trace_only=True))
     for nh, nw in [(1, 1), (2, 1)]:
         outs, edges = S["collide"]
         I.append(Instance(f"collide_{nh}x{nw}_sink", outs, edges, cluster(nh, nw), [("u", "0"), ("g", "1")], trace_only=True))
@@ -190,7 +198,7 @@ def thorough_instances() -> list[Instance]:
     I = list(quick_instances())
     seen = {i.name for i in I}
     for shape, (outs, edges) in S.items():
-        if shape in ("empty", "manyout", "manyin", "sixtasks", "gpumix", "fanout4", "gpufan", "gpusrc2", "fanvee", "twofan", "collide"):
+        if shape in ("empty", "manyout", "manyin", "sixtasks", "gpumix", "fanout4", "gpufan", "gpusrc2", "fanvee", "twofan", "collide", "collide_dots", "wide34"):
             continue
         alld = [(t, o) for t in outs for o in outs[t]]
         snk = sinks(outs, edges)
